@@ -13,6 +13,7 @@ so that every binding assigns its own occurrence id and every use records (use i
 import itertools
 import json
 import os
+import re
 
 import common
 
@@ -403,9 +404,68 @@ def _task(prog):
     return dict(src=src, gprog=g_prog(p.scopes[0]), uses=out, nscopes=len(p.scopes))
 
 
+# ------------------------------------------------------------------ directed shapes outside the modelled language
+# (source, [(marker of the use, occurrence index), expected lines of the definitions Python's scoping admits])
+# Binders the scope-tree language does not have (star parameters, lambda star parameters) and the
+# global/nonlocal interplay at module level.  Oracle: CPython's scoping, written out by hand per case and
+# re-checked by executing the program (the value read at the use is the one bound at the expected line).
+DIRECTED = [
+    ("def f(*args, **kw):\n    return args, kw\nargs = 5\nkw = 6\n", [('args', 1, {1}), ('kw', 1, {1})]),
+    ("def f(first, *rest, key=1, **more):\n    return first, rest, key, more\nrest = 7\nmore = 8\nfirst = 9\nkey = 3\n",
+     [('rest', 1, {1}), ('more', 1, {1}), ('first', 1, {1}), ('key', 1, {1})]),
+    ("g = lambda *rest: rest\nrest = 8\n", [('rest', 1, {1})]),
+    ("h = lambda **kw: kw\nkw = 8\n", [('kw', 1, {1})]),
+    ("class K:\n    def m(self, *args):\n        return args\nargs = 1\n", [('args', 1, {2})]),
+    ("counter = 0\ndef make():\n    counter = 1\n    def bump():\n        nonlocal counter\n        counter += 1\n"
+     "        return counter\n    return bump\ndef read():\n    return counter\ncounter\n",
+     [('counter', 5, {1}), ('counter', 6, {1}), ('counter', 4, {3, 6})]),
+    ("total = 0\ndef outer():\n    total = 5\n    def inner():\n        nonlocal total\n        total = 6\n    inner()\n"
+     "    return total\ndef peek():\n    return total\nprint(total)\n",
+     [('total', 5, {1}), ('total', 6, {1}), ('total', 4, {3, 6})]),
+    ("x = 1\ndef a():\n    global x\n    x = 2\ndef b():\n    x = 3\n    def c():\n        nonlocal x\n        x = 4\n"
+     "    return x\ndef d():\n    return x\n", [('x', 7, {1, 3, 4}), ('x', 6, {6, 9})]),
+]
+
+
+def _directed_task(item):
+    import jedi
+    src, probes = item
+    out = []
+    for (name, occ, want) in probes:
+        # position of the occ-th (0-based) occurrence of the identifier as a whole word
+        pos = [(m.start()) for m in re.finditer(r'\b%s\b' % re.escape(name), src)]
+        off = pos[occ]
+        line = src.count('\n', 0, off) + 1
+        col = off - (src.rfind('\n', 0, off) + 1)
+        try:
+            got = sorted({d.line for d in jedi.Script(src).goto(line, col) if d.line is not None})
+        except Exception as e:
+            out.append(dict(name=name, at=(line, col), exc=common.exc_sig(e)))
+            continue
+        out.append(dict(name=name, at=(line, col), got=got, want=sorted(want)))
+    return out
+
+
+def stream_directed(ctx):
+    res = common.pmap(_directed_task, DIRECTED, chunksize=1)
+    for (src, probes), recs in zip(DIRECTED, res):
+        for r in recs:
+            ctx.count('directed', (src, r['name'], tuple(r['at'])), nontrivial=True)
+            if 'exc' in r:
+                ctx.deviation(dict(stream='goto', exc=r['exc']['exc'], site=r['exc']['site']),
+                              dict(source=src, use=r['at'], error=r['exc']), 'Script.goto raised')
+            elif not r['got'] or not set(r['got']) <= set(r['want']):
+                ctx.deviation(dict(stream='directed', cls='goto-outside-python-scope', name=r['name']),
+                              dict(source=src, use=r['at'], goto_lines=r['got'], lines_python_scoping_admits=r['want']),
+                              'goto on %s at %r lands on lines %r; Python\'s scoping admits only bindings on lines %r'
+                              % (r['name'], r['at'], r['got'], r['want']))
+    ctx.stat('directed_probes', sum(len(p) for _, p in DIRECTED))
+
+
 def run(ctx):
     common.setup_jedi(os.path.join(ctx.tmp, 'cache'))
     ctx.proofs()
+    stream_directed(ctx)
     ctx.cov['fingerprints'] = common.fingerprint(FP)
     ctx.cov['rule'] = ('programs of the scope-tree language: exhaustive over 1 identifier, nesting depth<=2, <=2 statements per body '
                        '(a seed-independent prefix of the enumeration in quick), the systematic family of nested def/class chains of length<=3 with every binding placement, plus seeded random programs (2 identifiers, depth<=4); '
